@@ -124,6 +124,9 @@ def _locate_droplets_in_mask_cartesian(mask: ScalarField) -> Emulsion:
     volumes = ndimage.sum(mask.data, labels, index=indices)
     volumes = np.asanyarray(volumes) * cell_volume
 
+    # number of periods by which each cell has been moved along each axis while merging
+    shift = np.zeros(labels.shape + (grid.num_axes,), dtype=int)
+
     # connect clusters linked viaperiodic boundary conditions
     for ax in np.flatnonzero(grid.periodic):  # look at all periodic axes
         # compile list of all boundary points connected along the current axis
@@ -146,11 +149,16 @@ def _locate_droplets_in_mask_cartesian(mask: ScalarField) -> Emulsion:
                 # weighted averages of the center of mass
                 v_l, v_h = volumes[i_l - 1], volumes[i_h - 1]
                 pos_l, pos_h = positions[i_l - 1], positions[i_h - 1]
-                pos_h[ax] -= grid.shape[ax]  # wrap around the upper point
+                # move the upper cluster such that cell `h` lies just below cell `l`; this
+                # is one period along `ax` unless one of the clusters was moved before
+                periods = shift[l] - shift[h]
+                periods[ax] -= 1
+                pos_h += periods * grid.shape  # wrap around the upper point
                 pos = (pos_l * v_l + pos_h * v_h) / (v_l + v_h)
                 # update both clusters with the new data
                 positions[i_h - 1] = positions[i_l - 1] = pos
                 volumes[i_h - 1] = volumes[i_l - 1] = v_l + v_h
+                shift[labels == i_h] += periods
                 labels[labels == i_h] = i_l
 
     # determine which clusters are actually present
